@@ -64,8 +64,18 @@ impl RealEnc {
                     return Err("encode_read was short".into());
                 }
             }
-            (RealEnc::Verif(e), "b") => e.encode(d),
-            (RealEnc::Verif(e), "c") => e.encode_copy(d),
+            // `ZeroCopySink for hcobs::Encoder`, called through a trait object (track apigaps); the hook
+            // encoder does not implement the trait: same entry points as b / c
+            (RealEnc::Prod(e), "S") => {
+                let sink: &mut dyn owning_iovec::ZeroCopySink<'static> = e;
+                sink.append_borrow(d)
+            }
+            (RealEnc::Prod(e), "T") => {
+                let sink: &mut dyn owning_iovec::ZeroCopySink<'static> = e;
+                sink.append_copy(d)
+            }
+            (RealEnc::Verif(e), "b") | (RealEnc::Verif(e), "S") => e.encode(d),
+            (RealEnc::Verif(e), "c") | (RealEnc::Verif(e), "T") => e.encode_copy(d),
             (RealEnc::Verif(e), "a") | (RealEnc::Verif(e), "r") => {
                 let s = e.read_n(d, d.len(), attempts()).map_err(|x| x.to_string())?;
                 if s.slice() != d {
